@@ -92,12 +92,11 @@ Definition encode_tx (t : tx) : bytes := encode (tx_item t).
 
 (* Transaction.DecodeRLP -> rlp struct decoding of txdata: uint64 (no leading
    zero, <= 8 bytes), big ints (no leading zero), `rlp:"nil"` pointer to a
-   20-byte array (empty value of either kind -> nil: the C11 nil-tag behaviour
-   is kept as the code has it), byte slice *)
+   20-byte array (the empty string -> nil; an empty list is rejected since the
+   rlp nil-pointer fix), byte slice *)
 Definition item_to_addr (x : item) : option (option bytes) :=
   match x with
   | Str [] => Some None
-  | Lst [] => Some None
   | Str a => if lenN a =? 20 then Some (Some a) else None
   | Lst _ => None
   end.
